@@ -609,4 +609,272 @@ theorem expLog_finishLoop (g : Graph) (s : State) : (finishLoop g s).expLog = s.
   · exact h3
 
 
+
+/-! ### the remaining primitives -/
+
+theorem expLog_submitOne (s : State) (x : Proxy) : (submitOne s x).expLog = s.expLog := rfl
+
+theorem expLog_releaseOne (s : State) (x : Proxy) : (releaseOne s x).expLog = s.expLog := rfl
+
+theorem expLog_releaseAndSubmit (s : State) : (releaseAndSubmit s).expLog = s.expLog := by
+  unfold releaseAndSubmit
+  extract_lets trig s1 s2 pre
+  have h1 : s1.expLog = s.expLog := rfl
+  have h2 : s2.expLog = s.expLog := by
+    simp only [s2]
+    split
+    · exact h1
+    · exact foldl_inv (fun st : State => st.expLog = s.expLog) releaseOne
+        (fun st x h => (expLog_releaseOne st x).trans h) _ _ h1
+  split
+  · exact h2
+  · show (List.foldl submitOne s2 pre).expLog = s.expLog
+    exact foldl_inv (fun st : State => st.expLog = s.expLog) submitOne
+      (fun st x h => (expLog_submitOne st x).trans h) _ _ h2
+
+theorem expLog_setHoldPoint (s : State) (p : Int) : (setHoldPoint s p).expLog = s.expLog := by
+  unfold setHoldPoint
+  simp only
+  refine foldl_inv (fun st : State => st.expLog = s.expLog) _ ?_ _ _ rfl
+  intro st x hst
+  split
+  · split
+    · rw [expLog_holdActive]; exact hst
+    · exact hst
+  · exact hst
+
+theorem expLog_holdTasks (s : State) (ids : List (Int × String)) : (holdTasks s ids).expLog = s.expLog := by
+  unfold holdTasks
+  refine foldl_inv (fun st : State => st.expLog = s.expLog) _ ?_ _ _ rfl
+  intro st k hst
+  split
+  · rw [expLog_holdActive]; exact hst
+  · split
+    · exact hst
+    · exact hst
+
+theorem expLog_releaseTasks (s : State) (ids : List (Int × String)) : (releaseTasks s ids).expLog = s.expLog := by
+  unfold releaseTasks
+  refine foldl_inv (fun st : State => st.expLog = s.expLog) _ ?_ _ _ rfl
+  intro st k hst
+  split
+  · exact hst
+  · split
+    · rw [expLog_releaseHeldActive]; exact hst
+    · exact hst
+
+theorem expLog_releaseHoldPoint (s : State) : (releaseHoldPoint s).expLog = s.expLog := by
+  unfold releaseHoldPoint
+  simp only
+  refine foldl_inv (fun st : State => st.expLog = s.expLog) _ ?_ _ _ rfl
+  intro st x hst
+  split
+  · rw [expLog_releaseHeldActive]; exact hst
+  · exact hst
+
+theorem expLog_setStopPoint (s : State) (p : Int) : (setStopPoint s p).expLog = s.expLog := by
+  unfold setStopPoint
+  split
+  · rfl
+  · simp only
+    split
+    · split <;> rfl
+    · rfl
+
+
+theorem expLog_queueOrTrigger (s : State) (x : Proxy) : (queueOrTrigger s x).expLog = s.expLog := by
+  unfold queueOrTrigger
+  simp only
+  split <;> rfl
+
+theorem expLog_trigger (g : Graph) (s : State) (p : Int) (n : String) : (trigger g s p n).expLog = s.expLog := by
+  unfold trigger
+  split
+  · rfl
+  · simp only
+    rw [expLog_releaseRunahead]
+    split
+    · rfl
+    · exact expLog_queueOrTrigger _ _
+
+theorem expLog_restart (g : Graph) (s : State) : (restart g s).expLog = [] := by
+  unfold restart
+  extract_lets restore cfgStop pool wait s'
+  split
+  · rw [expLog_setHoldPoint]
+  · rfl
+
+/-! ### the one place where an expiry is logged -/
+
+/-- the event describes proxy `x` at clock `now` -/
+def EvOf (x : Proxy) (now : Int) (e : ExpEvent) : Prop :=
+  e.pt = x.pt ∧ e.name = x.name ∧ e.frm = x.status ∧ e.manual = x.manual ∧ e.exp = x.expire ∧ e.now = now
+
+theorem evOf_mkEvent (s : State) (x : Proxy) (tr : Bool) : EvOf x s.now (mkEvent s x tr) :=
+  ⟨rfl, rfl, rfl, rfl, rfl, rfl⟩
+
+theorem evOf_closeEvent (g : Graph) (s0 s1 : State) (x : Proxy) (e : ExpEvent) (y : Proxy) (now : Int)
+    (h : EvOf y now e) : EvOf y now (closeEvent g s0 s1 x e) := h
+
+/-- `processExpired` logs at most one event, and that event describes the proxy it was given -/
+theorem expLog_processExpired (g : Graph) (s : State) (x : Proxy) (tr : Bool) :
+    (processExpired g s x tr).expLog = s.expLog ∨
+      ∃ e, (processExpired g s x tr).expLog = s.expLog ++ [e] ∧ EvOf x s.now e := by
+  unfold processExpired
+  extract_lets y changed s0 s1
+  have h1 : s1.expLog = s.expLog := by
+    simp only [s1, s0]; rw [expLog_spawnChildren, expLog_store]
+  split
+  · right
+    refine ⟨if tr = true then mkEvent s x tr else closeEvent g s0 s1 x (mkEvent s x tr), ?_, ?_⟩
+    · show s1.expLog ++ [_] = s.expLog ++ [_]
+      rw [h1]
+    · split
+      · exact evOf_mkEvent s x tr
+      · exact evOf_closeEvent g s0 s1 x _ x s.now (evOf_mkEvent s x tr)
+  · left; exact h1
+
+/-! ### `lookup` after `store` -/
+
+theorem find?_map_replace (p : Int) (n : String) (y : Proxy) (hy : y.pt = p ∧ y.name = n) :
+    ∀ (l : List Proxy) (x : Proxy), l.find? (fun z => z.pt == p && z.name == n) = some x →
+      (l.map fun z => if z.pt == y.pt && z.name == y.name then y else z).find?
+        (fun z => z.pt == p && z.name == n) = some y := by
+  intro l
+  induction l with
+  | nil => intro x h; simp at h
+  | cons z zs ih =>
+    intro x h
+    simp only [List.map_cons]
+    by_cases hz : (z.pt == p && z.name == n) = true
+    · have hz' : (z.pt == y.pt && z.name == y.name) = true := by rw [hy.1, hy.2]; exact hz
+      rw [if_pos hz', List.find?_cons]
+      simp [hy.1, hy.2]
+    · have hz' : ¬ (z.pt == y.pt && z.name == y.name) = true := by rw [hy.1, hy.2]; exact hz
+      rw [List.find?_cons] at h
+      simp only [hz] at h
+      rw [if_neg hz', List.find?_cons]
+      simp only [hz]
+      exact ih x h
+
+theorem find?_map_replace_none (p : Int) (n : String) (y : Proxy) (hy : y.pt = p ∧ y.name = n) :
+    ∀ (l : List Proxy), l.find? (fun z => z.pt == p && z.name == n) = none →
+      (l.map fun z => if z.pt == y.pt && z.name == y.name then y else z).find?
+        (fun z => z.pt == p && z.name == n) = none := by
+  intro l
+  induction l with
+  | nil => intro _; rfl
+  | cons z zs ih =>
+    intro h
+    rw [List.find?_cons] at h
+    by_cases hz : (z.pt == p && z.name == n) = true
+    · simp [hz] at h
+    · simp only [hz] at h
+      have hz' : ¬ (z.pt == y.pt && z.name == y.name) = true := by rw [hy.1, hy.2]; exact hz
+      simp only [List.map_cons]
+      rw [if_neg hz', List.find?_cons]
+      simp only [hz]
+      exact ih h
+
+theorem lookup_key {s : State} {p : Int} {n : String} {x : Proxy} {tr : Bool} (h : lookup s p n = some (x, tr)) :
+    x.pt = p ∧ x.name = n := by
+  unfold lookup at h
+  split at h
+  · rename_i y hg
+    simp only [Option.some.injEq, Prod.mk.injEq] at h
+    have := get?_some_mem hg
+    rw [← h.1]; exact ⟨this.2.1, this.2.2⟩
+  · cases hf : s.ghosts.find? (fun x => x.pt == p && x.name == n) with
+    | none => simp [hf] at h
+    | some y =>
+      simp only [hf, Option.map_some, Option.some.injEq, Prod.mk.injEq] at h
+      have h2 := List.find?_some hf
+      simp only [Bool.and_eq_true, beq_iff_eq] at h2
+      rw [← h.1]; exact h2
+
+/-- the object stored is the object found next -/
+theorem lookup_store {s : State} {p : Int} {n : String} {x y : Proxy} {tr : Bool}
+    (h : lookup s p n = some (x, tr)) (hy : y.pt = p ∧ y.name = n) : lookup (store s y tr) p n = some (y, tr) := by
+  unfold lookup at h ⊢
+  split at h
+  · rename_i z hg
+    simp only [Option.some.injEq, Prod.mk.injEq] at h
+    obtain ⟨_, htr⟩ := h
+    subst htr
+    have : (store s y false).get? p n = some y := by
+      unfold store State.get? State.put
+      simp only [Bool.false_eq_true, if_false]
+      unfold State.get? at hg
+      exact find?_map_replace p n y hy _ _ hg
+    simp only [this]
+  · rename_i hg
+    cases hf : s.ghosts.find? (fun x => x.pt == p && x.name == n) with
+    | none => simp [hf] at h
+    | some z =>
+      simp only [hf, Option.map_some, Option.some.injEq, Prod.mk.injEq] at h
+      obtain ⟨_, htr⟩ := h
+      subst htr
+      have hg' : (store s y true).get? p n = none := by
+        unfold store
+        simp only [if_true]
+        exact hg
+      have hf' : (store s y true).ghosts.find? (fun x => x.pt == p && x.name == n) = some y := by
+        unfold store
+        simp only [if_true]
+        exact find?_map_replace p n y hy _ _ hf
+      simp only [hg', hf', Option.map_some]
+
+theorem now_store (s : State) (x : Proxy) (tr : Bool) : (store s x tr).now = s.now := by
+  unfold store; split <;> rfl
+
+theorem setComplete_more (g : Graph) (x : Proxy) (m : String) :
+    (setComplete g x m).1.status = x.status ∧ (setComplete g x m).1.manual = x.manual ∧
+      (setComplete g x m).1.expire = x.expire := by
+  unfold setComplete
+  split
+  · exact ⟨rfl, rfl, rfl⟩
+  · split <;> exact ⟨rfl, rfl, rfl⟩
+
+/-- **the `expired` message**: either nothing is logged, or the message passed the checks and exactly one event
+is logged, describing the object found under the key when the message arrived -/
+theorem processMessage_expired_log (g : Graph) (fuel : Nat) (s : State) (p : Int) (n : String) (flag : Flag)
+    (sn : Nat) (x : Proxy) (tr : Bool) (hl : lookup s p n = some (x, tr)) :
+    (processMessage g (fuel + 1) s p n flag sn "expired").1.expLog = s.expLog ∨
+      (pmSkip x tr flag sn "expired" = false ∧
+        ∃ e, (processMessage g (fuel + 1) s p n flag sn "expired").1.expLog = s.expLog ++ [e] ∧
+          e.pt = p ∧ e.name = n ∧ e.frm = x.status ∧ e.manual = x.manual ∧ e.exp = x.expire ∧ e.now = s.now) := by
+  unfold processMessage
+  simp only [hl]
+  split
+  · left; rfl
+  · rename_i hskip
+    have himp : impliedOf (pmComplete g x "expired").1 "expired" = [] := by
+      unfold impliedOf; simp
+    simp only [himp, List.foldl_nil]
+    have hc : (pmComplete g x "expired").1 = (setComplete g x "expired").1 := by
+      unfold pmComplete; simp
+    have hk := lookup_key hl
+    have hyk : (pmComplete g x "expired").1.pt = p ∧ (pmComplete g x "expired").1.name = n := by
+      rw [hc]; have := setComplete_fields g x "expired"; exact ⟨this.1.trans hk.1, this.2.1.trans hk.2⟩
+    rw [lookup_store hl hyk]
+    simp only
+    unfold pmDispatch
+    simp only [show ("expired" == "started") = false by decide, show ("expired" == "succeeded") = false by decide,
+      Bool.false_eq_true, if_false, beq_self_eq_true, if_true]
+    rcases expLog_processExpired g (store s (pmComplete g x "expired").1 tr) (pmComplete g x "expired").1 tr with h | h
+    · left; rw [h, expLog_store]
+    · right
+      obtain ⟨e, he, hev⟩ := h
+      refine ⟨by simpa using hskip, e, ?_, ?_⟩
+      · rw [he, expLog_store]
+      · obtain ⟨h1, h2, h3, h4, h5, h6⟩ := hev
+        have hm := setComplete_more g x "expired"
+        rw [hc] at h1 h2 h3 h4 h5
+        refine ⟨h1.trans hyk.1 |> fun h => by rw [hc] at hyk; exact h1.trans hyk.1, ?_, ?_, ?_, ?_, ?_⟩
+        · rw [hc] at hyk; exact h2.trans hyk.2
+        · exact h3.trans hm.1
+        · exact h4.trans hm.2.1
+        · exact h5.trans hm.2.2
+        · rw [h6, now_store]
+
 end CylcModel.Sched3Exp
